@@ -53,6 +53,7 @@ def variants(r, tier):
   # USE_RATIO_RESET: connections that send less than MIN_RESET_RATIO of what was received in the last stats period are
   # reset (at most every MIN_RESET_INTERVAL seconds); only meaningful with statistics ticks in the sequence
   for k, v in enumerate(out):
+    v['namecache'] = (k % 3 == 1)          # CACHE_METRIC_NAMES_MAX / _TTL as suggested in carbon.conf.example
     v['ratio'] = (k % 4 == 3)
     v['reset_interval'] = [0, 121][k % 2]
   return out
@@ -67,6 +68,8 @@ def apply_variant(settings, v, router='constant', rf=1):
   settings['REPLICATION_FACTOR'] = rf
   settings['DIVERSE_REPLICAS'] = False
   settings['USE_RATIO_RESET'] = bool(v.get('ratio'))
+  settings['CACHE_METRIC_NAMES_MAX'] = 1000 if v.get('namecache') else 0
+  settings['CACHE_METRIC_NAMES_TTL'] = 600 if (v.get('namecache') and v.get('ratio')) else 0
   settings['MIN_RESET_STAT_FLOW'] = 1 if v.get('ratio') else 1000
   settings['MIN_RESET_INTERVAL'] = v.get('reset_interval', 121)
   from carbon.conf import settings as _s
